@@ -88,6 +88,9 @@ CHECKS["C16"] = (True, "exploration", "real node (gossip server, handle_changes,
 CHECKS["C13"] = (True, "fault_enumeration", "real node with subscriptions; crash images (database + subscription databases) copied by hook callbacks at the points of a subscription's life and booted through the real start-up path; shutdown in the binary's order with in-flight transactions; restart on the same files; oracle over HTTP-handler answers, subscription directories, rows vs query, change log continuity",
     "Runtime monitor: images at sub.created, sub.initial_committed, n-th match.before_commit, running-idle, sub.draining and sub.completed are each booted with the real setup path: a subscription is served only from an image taken after it completed (then rows == query), otherwise GET by id is 404 and its directory is gone. The clean path reproduces `corrosion agent`'s shutdown order (tripwire, in-flight requests finish, drop_handles, wait for counted tasks) and checks after restart: same id, rows == query, snapshot change id == newest id of the log >= last id delivered before, resume replays identical changes, next change gets the next id.",
     "§0.1/§3-C13", "the binary's signal handling and shutdown sequencing are reproduced in process, not executed; divergence caused by transactions committing during shutdown is the known finding F23")
+CHECKS["C19"] = (True, "exploration", "real nodes as source/destination, real `corrosion backup` / `corrosion restore` subprocesses, real node started on the restored files; oracle = crsql_changes maps incl. authoring site ids; plus sqlite3_restore::restore over a live file with reader processes",
+    "Runtime monitor: (1) a source node holding changes of two or three authors (deletions, chunked remote versions) is backed up and restored onto an absent path or another node's files (plain, --self-actor-id, --actor-id); the backup must carry no self ordinal, no clock rows with ordinal 0 and no membership rows; the node started on the restored files must expose exactly the source's cells with the same values, versions, causal lengths and authoring site ids, have the requested actor id, no subscription directory of the old destination, and attribute a new write to itself. (2) sqlite3_restore::restore replaces a WAL (with uncheckpointed frames) or rollback-journal database by one of another size while 2-4 reader processes read two tables per read transaction: every successful read is entirely old or entirely new, and the file afterwards is entirely new (or untouched when the call fails).",
+    "§0.1/§3-C19", "restore while a corrosion agent has the destination open is refused by the command itself (admin socket check) and is not exercised")
 
 NOT_YET = {
 }
